@@ -42,6 +42,7 @@ import (
 
 	"github.com/kercylan98/vivid"
 	"github.com/kercylan98/vivid/internal/actor"
+	"github.com/kercylan98/vivid/internal/mailbox"
 	"github.com/kercylan98/vivid/pkg/log"
 	"github.com/kercylan98/vivid/xverif/cmd/accessgen/gen"
 	"github.com/kercylan98/vivid/xverif/lib"
@@ -180,7 +181,7 @@ func runChild(o *lib.Out, f lib.Flags, dur time.Duration, workers int) {
 	}
 	done := make(chan error, 1)
 	go func() { done <- cmd.Wait() }()
-	limit := dur + 150*time.Second
+	limit := dur + 240*time.Second
 	hung := false
 	var werr error
 	select {
@@ -372,27 +373,64 @@ func cleanFn(fn string) string {
 	return strings.TrimSuffix(fn, "()")
 }
 
-// vividGoroutines: from a SIGQUIT dump, the goroutines whose stack mentions the tree under test (first frames).
+// vividGoroutines: from a goroutine dump, the goroutines whose stack mentions the tree under test, grouped by their
+// top frames (so that 10 000 goroutines waiting at the same place are one entry with a count).
 func vividGoroutines(dump, repo string) string {
-	var sb strings.Builder
-	n := 0
+	type grp struct {
+		n     int
+		first string
+	}
+	groups := map[string]*grp{}
+	var order []string
 	for _, g := range strings.Split(dump, "\n\n") {
 		if !strings.HasPrefix(g, "goroutine ") || !strings.Contains(g, repo+"/") {
 			continue
 		}
 		lines := strings.Split(g, "\n")
-		if len(lines) > 13 {
-			lines = lines[:13]
+		var sig []string
+		for _, l := range lines[1:] {
+			if strings.HasPrefix(l, "\t") || strings.HasPrefix(l, " ") {
+				continue
+			}
+			fn := l
+			if k := strings.LastIndex(fn, "("); k > 0 {
+				fn = fn[:k]
+			}
+			if strings.HasPrefix(fn, "internal/sync.") || strings.HasPrefix(fn, "sync.") || strings.HasPrefix(fn, "runtime.") {
+				continue
+			}
+			sig = append(sig, cleanFn(fn))
+			if len(sig) == 6 {
+				break
+			}
 		}
-		sb.WriteString(strings.Join(lines, "\n") + "\n\n")
-		if n++; n >= 12 {
+		state := lines[0]
+		if k := strings.Index(state, "["); k >= 0 {
+			state = strings.TrimSuffix(state[k:], ":")
+			if c := strings.Index(state, ","); c > 0 { // drop ", 3 minutes"
+				state = state[:c] + "]"
+			}
+		}
+		key := state + " " + strings.Join(sig, " <- ")
+		if groups[key] == nil {
+			groups[key] = &grp{}
+			order = append(order, key)
+		}
+		groups[key].n++
+	}
+	sort.Slice(order, func(i, j int) bool { return groups[order[i]].n > groups[order[j]].n })
+	var sb strings.Builder
+	for i, k := range order {
+		if i >= 25 {
+			fmt.Fprintf(&sb, "... %d more groups\n", len(order)-i)
 			break
 		}
+		fmt.Fprintf(&sb, "%6d x %s\n", groups[k].n, k)
 	}
 	if sb.Len() == 0 {
 		return clip(tail(dump, 3000), 3000)
 	}
-	return clip(sb.String(), 6000)
+	return clip(sb.String(), 7000)
 }
 
 // ---------------------------------------------------------------- child: the stress
@@ -409,6 +447,10 @@ type (
 	watch     struct{ Ref vivid.ActorRef }
 	sched     struct{ N int }
 	askPeer   struct{ Ref vivid.ActorRef }
+	askBurst  struct {
+		Ref vivid.ActorRef
+		Die bool
+	}
 	subscribe struct{ On bool }
 	evA       struct{ N int }
 	evB       struct{ N int }
@@ -426,6 +468,7 @@ type H struct {
 	stopping atomic.Bool
 	ops      [16]atomic.Int64
 	spawnErr atomic.Int64
+	throttled atomic.Int64
 	lg       log.Logger
 }
 
@@ -506,6 +549,15 @@ func (h *H) newWorker(depth int) vivid.Actor {
 			}
 		case askPeer:
 			ctx.PipeTo(m.Ref, ping{1}, vivid.ActorRefs{ctx.Ref()}, tinyTimeout(r))
+		case askBurst:
+			// many pending Asks whose agent is this actor, timing out one after the other - and then the
+			// actor is killed: its doKill walks its future table while the timeouts remove entries from it
+			for i := 0; i < 10; i++ {
+				ctx.PipeTo(m.Ref, work{i}, vivid.ActorRefs{ctx.Ref()}, time.Duration(20+r.Intn(400))*time.Microsecond)
+			}
+			if m.Die {
+				ctx.Kill(ctx.Ref(), false, "after ask burst")
+			}
 		case subscribe:
 			if m.On {
 				ctx.EventStream().Subscribe(ctx, evB{})
@@ -650,6 +702,11 @@ func child(seed uint64, dur time.Duration, workers int) {
 		spawnTop(rr)
 	}
 	sharedFutures := make(chan vivid.Future[vivid.Message], 64)
+	rootMailbox := sys.Mailbox()
+	rootPending := func() int32 {
+		u, sy, _ := mailbox.XVRacePending(rootMailbox)
+		return u + sy
+	}
 	for w := 0; w < workers; w++ {
 		r := rr.Fork()
 		wg.Add(1)
@@ -658,6 +715,14 @@ func child(seed uint64, dur time.Duration, workers int) {
 			n := 0
 			for time.Now().Before(deadline) {
 				n++
+				if n%16 == 0 {
+					// keep the system in a regime it can drain: every reply to a timed-out Ask and every message to a dead
+					// actor becomes a dead letter in the ROOT's mailbox; the callers back off while that backlog is large
+					for rootPending() > 20000 && time.Now().Before(deadline) {
+						h.throttled.Add(1)
+						time.Sleep(time.Millisecond)
+					}
+				}
 				ref := p.pick(r)
 				if ref == nil {
 					spawnTop(r)
@@ -692,7 +757,11 @@ func child(seed uint64, dur time.Duration, workers int) {
 					case 5:
 						m = sched{n}
 					case 6:
-						m = askPeer{p.pick(r)}
+						if r.Bool() {
+							m = askPeer{p.pick(r)}
+						} else {
+							m = askBurst{p.pick(r), r.Chance(2, 3)}
+						}
 					case 7:
 						m = subscribe{r.Bool()}
 					case 8:
@@ -827,31 +896,43 @@ func child(seed uint64, dur time.Duration, workers int) {
 	}
 	h.stopping.Store(true)
 
-	// quiescence: the tree must stop changing
+	// quiescence: the tree must stop changing and every mailbox must be empty and idle
 	var last string
 	stable := 0
 	var root actor.XVRaceNode
 	var nodes []actor.XVRaceNode
 	var futures, agents int
 	qt0 := time.Now()
-	for time.Since(qt0) < 40*time.Second && stable < 6 {
+	qlimit := 60*time.Second + dur/2
+	busy := 0
+	for time.Since(qt0) < qlimit && stable < 6 {
 		time.Sleep(150 * time.Millisecond)
 		root, nodes, futures, agents = actor.XVRaceSnapshot(sys)
-		s := fmt.Sprint(root, nodes, futures, agents, h.handled.Load())
-		if s == last {
+		var sb strings.Builder
+		busy = 0
+		for _, n := range append([]actor.XVRaceNode{root}, nodes...) {
+			fmt.Fprint(&sb, n.Path, n.State, n.Paused, n.Children, ";")
+			if u, sy, proc := mailbox.XVRacePending(n.Mailbox); u+sy > 0 && !n.Paused || sy > 0 || proc {
+				busy++
+			}
+		}
+		fmt.Fprint(&sb, futures, agents, h.handled.Load())
+		if s := sb.String(); s == last && busy == 0 {
 			stable++
 		} else {
 			stable, last = 0, s
 		}
 	}
 	quiescent := stable >= 6
+	// the tree is only required to be consistent when nothing is in progress (a child that is being released is
+	// legitimately in one table and not in the other for a moment)
 	problems := checkTree(root, nodes)
-	if len(problems) > 0 {
-		mon("tree", fmt.Sprintf("at quiescence (stable=%v) registry / children / parent disagree:\n%s", quiescent, strings.Join(problems, "\n")))
+	if len(problems) > 0 && quiescent {
+		mon("tree", fmt.Sprintf("at quiescence registry / children / parent disagree:\n%s", strings.Join(problems, "\n")))
 	}
 	a, b := actor.XVRaceStreamSizes(sys)
 	if a != b {
-		mon("tree", fmt.Sprintf("event-stream tables disagree at quiescence: %d (type -> subscriber) pairs vs %d (subscriber -> type) pairs", a, b))
+		mon("tree", fmt.Sprintf("event-stream tables disagree: %d (type -> subscriber) pairs vs %d (subscriber -> type) pairs", a, b))
 	}
 	killing := 0
 	for _, n := range nodes {
@@ -861,7 +942,8 @@ func child(seed uint64, dur time.Duration, workers int) {
 	}
 	info := map[string]any{
 		"stress_actors_launched": h.launched.Load(), "stress_messages_handled": h.handled.Load(), "stress_events_delivered": h.events.Load(),
-		"stress_pipe_results": h.pipes.Load(), "stress_spawn_errors": h.spawnErr.Load(), "quiescent": quiescent,
+		"stress_pipe_results": h.pipes.Load(), "stress_spawn_errors": h.spawnErr.Load(), "quiescent": quiescent, "quiescence_wait_s": time.Since(qt0).Seconds(),
+		"busy_mailboxes_at_last_poll": busy, "caller_backoffs_on_root_backlog": h.throttled.Load(),
 		"registered_at_quiescence": len(nodes), "killing_at_quiescence": killing, "futures_registered_at_quiescence": futures, "future_agents_at_quiescence": agents,
 		"stream_pairs_at_quiescence": a,
 	}
@@ -878,12 +960,21 @@ func child(seed uint64, dur time.Duration, workers int) {
 	select {
 	case err := <-stopErr:
 		if err != nil {
-			_, left, _, _ := actor.XVRaceSnapshot(sys)
+			root2, left, _, _ := actor.XVRaceSnapshot(sys)
 			var ls []string
+			paused := 0
 			for _, n := range left {
-				ls = append(ls, fmt.Sprintf("%s(state %d, %d children)", n.Path, n.State, len(n.Children)))
+				if n.Paused {
+					paused++
+				}
+				if len(ls) < 40 {
+					ls = append(ls, fmt.Sprintf("%s(state %d, paused %v, %d children)", n.Path, n.State, n.Paused, len(n.Children)))
+				}
 			}
-			mon("hang", "System.Stop failed: "+err.Error()+"; still registered: "+clip(strings.Join(ls, " "), 3000))
+			// an actor that never terminates (for instance one left paused) is the business of C06 / C07 / C09, not of the
+			// concurrency-safety property: reported under its own name (filtered out of C10 by the registry, kept in the info)
+			mon("stop-failed", fmt.Sprintf("System.Stop failed: %v\nroot: state %d, mailbox paused %v, %d children; %d contexts still registered (%d paused)\ngoroutines in vivid code:\n%s\nstill registered (first 40): %s",
+				err, root2.State, root2.Paused, len(root2.Children), len(left), paused, stacks(), strings.Join(ls, " ")))
 		} else {
 			root2, left, _, _ := actor.XVRaceSnapshot(sys)
 			if len(left) > 0 || len(root2.Children) > 0 {
